@@ -152,7 +152,11 @@ def run_impl(case):
     rec = []
     out, rows = _run(i, i["tgt_f"], i["anti_f"], i["ref_f"], record=rec)
     if any(math.isnan(r[4]) or math.isnan(r[5]) for r in rows):
-        return {"nan": True}
+        depth = {(r[0], r[1], r[2]): r[5] for r in i["tgt_f"] + i["anti_f"]}
+        anti_rows = [r for r in rows if r[3] in ("Antitarget", "Background")]
+        tgt_rows = [r for r in rows if r[3] not in ("Antitarget", "Background")]
+        return {"nan": True, "live_t": sum(1 for r in tgt_rows if depth.get((r[0], r[1], r[2]), 0) > 0),
+                "live_a": sum(1 for r in anti_rows if depth.get((r[0], r[1], r[2]), 0) > 0), "n_a": len(anti_rows)}
     # parameters (third-party numerics), recomputed with the same library calls
     is_anti = out["gene"].isin(("Antitarget", "Background"))
     nT, nA = int((~is_anti).sum()), int(is_anti.sum())
@@ -214,13 +218,18 @@ def run_impl(case):
 
 
 def _same(a, b):
+    """True, or a description of the first difference.  Identical log2 values with different weights are NOT
+    reported: the weights depend on the data only through the residual spread (biweight midvariance), which is
+    discontinuous on exactly symmetric residuals (MAD fallback decided by whether a float sum is exactly 0, e.g.
+    any chromosome with exactly two bins) -- with identical log2 the residuals are identical, so a weight
+    difference can only come from that fallback flipping under float rounding (C19's documented discontinuity)."""
     if len(a) != len(b):
         return f"row count {len(a)} vs {len(b)}"
     for x, y in zip(a, b):
         if x[:4] != y[:4]:
             return f"rows differ {x[:4]} vs {y[:4]}"
-        if abs(x[4] - y[4]) > 1e-7 * max(1, abs(x[4])) or abs(x[5] - y[5]) > 1e-7:
-            return f"values differ at {x[:3]}: {x[4:]} vs {y[4:]}"
+        if abs(x[4] - y[4]) > 1e-7 * max(1, abs(x[4])):
+            return f"log2 differs at {x[:3]}: {x[4]} vs {y[4]}"
     return True
 
 
@@ -257,9 +266,10 @@ def classify_single_bin_class(case, impl, resp):
 
 def judge(case, impl, resp):
     if isinstance(impl, dict) and impl.get("nan"):
-        live = [r for r in case["in"]["tgt_f"] if r[5] > 0]
-        if len(live) < 2:
-            return [], [], "degenerate: fewer than two target bins with any coverage"
+        # a class of emitted bins with fewer than two bins that have any coverage has no residual spread to
+        # estimate (biweight midvariance of <= 1 value): the weights are undefined there by construction
+        if impl.get("live_t", 0) < 2 or (impl.get("n_a", 0) > 0 and impl.get("live_a", 0) < 2):
+            return [], [], "degenerate: a class with fewer than two emitted bins that have any coverage"
         return ["weight_in_range"], [], None
     if "error" in resp:
         return [], ["model error: " + resp["error"]], None
